@@ -175,14 +175,14 @@ CHECKS = {
         "Grammar-generated patterns for the 7 pattern types x all available cultures (every culture visited per type) x "
         "values in all calendars: formatting is deterministic; parse(format(v)) succeeds for representable values and "
         "equals the projection of v onto the pattern's fields (absent fields from the template, fractions truncated); "
-        "format(parse(format(v))) == format(v) for every value; the built-in round-trip / ISO patterns recover every "
-        "value. Applicability rules stated in the property are enforced by construction and counted in the evidence.",
+        "format(parse(format(v))) == format(v) for every value; the built-in round-trip / ISO patterns (incl. reduced- and variable-precision ones) and composite patterns recover every "
+        "value; date-time patterns embed ld<>/lt<> patterns. Applicability rules stated in the property are enforced by construction and counted in the evidence.",
         "Trusted: the harness-side pattern tokenizer and projection (checks/c07.py); ICU culture data only as a source of strings. Open findings are listed in known_findings.json.",
         "DESIGN.md §2 C07",
     ),
     "C08": (
         "exploration",
-        "Hypothesis property-based testing with grammar-generated and mutated pattern texts and input texts; result-validity oracle",
+        "Hypothesis property-based testing with grammar-generated and mutated pattern texts and input texts, plus a coverage-guided atheris (libFuzzer) campaign over (pattern, text) and pattern texts; result-validity oracle",
         "For 7 pattern classes x cultures: creation of grammar-generated, edited and junk pattern texts must return a "
         "pattern or raise InvalidPatternError; for every created pattern, formatted values and their mutations (edits, "
         "out-of-range and 40-digit runs, NUL, non-ASCII digits, 10 kB) are parsed: no exception may escape, a success "
@@ -217,13 +217,13 @@ CHECKS = {
     ),
     "C20": (
         "fault_enumeration",
-        "fault injection: enumerated truncations + generated k-byte corruptions biased to structural bytes found by an independent parser",
+        "fault injection: enumerated truncations, deterministic structural sweeps (field ids, inflated counts), Hypothesis-generated k-byte corruptions biased to structural bytes found by an independent parser, and a coverage-guided atheris (libFuzzer) campaign over a small real database",
         "Both real .nzd files are truncated at every prefix (thorough; structural prefixes and 1500 seed-chosen in "
         "quick) and corrupted by 1-4 byte substitutions/insertions/deletions aimed at field ids, length varints, counts, "
         "type/flag bytes, transition markers and pool indices; after each fault the stream is loaded, ids listed and the "
         "affected (plus unaffected) zones fetched through for_id and DateTimeZoneCache: outcome must be success or "
         "InvalidPyodaDataError; non-termination is decided by a deterministic call budget.",
-        "Trusted: ref/nzd.py structure map of the pristine files. Memory exhaustion is bounded by the watchdog + call budget rather than measured directly.",
+        "Trusted: ref/nzd.py structure map of the pristine files. Memory exhaustion = MemoryError or peak RSS growing by more than 200 MB while handling one damaged stream.",
         "DESIGN.md §2 C20",
     ),
 }
